@@ -17,7 +17,7 @@ import numpy
 from collada.common import DaeObject, E, tag
 from collada.common import DaeIncompleteError, DaeMalformedError, \
     DaeUnsupportedError
-from collada.util import _correctValInNode
+from collada.util import _correctValInNode, _setAttribute
 
 
 class Light(DaeObject):
@@ -79,8 +79,8 @@ class DirectionalLight(Light):
 
     def save(self):
         """Saves the light's properties back to :attr:`xmlnode`"""
-        self.xmlnode.set('id', self.id)
-        self.xmlnode.set('name', self.id)
+        _setAttribute(self.xmlnode, 'id', self.id)
+        _setAttribute(self.xmlnode, 'name', self.id)
         colornode = self.xmlnode.find('%s/%s/%s' % (tag('technique_common'),
                                                     tag('directional'), tag('color')))
         colornode.text = ' '.join(map(str, self.color))
@@ -150,8 +150,8 @@ class AmbientLight(Light):
 
     def save(self):
         """Saves the light's properties back to :attr:`xmlnode`"""
-        self.xmlnode.set('id', self.id)
-        self.xmlnode.set('name', self.id)
+        _setAttribute(self.xmlnode, 'id', self.id)
+        _setAttribute(self.xmlnode, 'name', self.id)
         colornode = self.xmlnode.find('%s/%s/%s' % (tag('technique_common'),
                                                     tag('ambient'), tag('color')))
         colornode.text = ' '.join(map(str, self.color))
@@ -250,8 +250,8 @@ class PointLight(Light):
 
     def save(self):
         """Saves the light's properties back to :attr:`xmlnode`"""
-        self.xmlnode.set('id', self.id)
-        self.xmlnode.set('name', self.id)
+        _setAttribute(self.xmlnode, 'id', self.id)
+        _setAttribute(self.xmlnode, 'name', self.id)
         pnode = self.xmlnode.find('%s/%s' % (tag('technique_common'), tag('point')))
         colornode = pnode.find(tag('color'))
         colornode.text = ' '.join(map(str, self.color))
@@ -375,8 +375,8 @@ class SpotLight(Light):
 
     def save(self):
         """Saves the light's properties back to :attr:`xmlnode`"""
-        self.xmlnode.set('id', self.id)
-        self.xmlnode.set('name', self.id)
+        _setAttribute(self.xmlnode, 'id', self.id)
+        _setAttribute(self.xmlnode, 'name', self.id)
         pnode = self.xmlnode.find('%s/%s' % (tag('technique_common'), tag('spot')))
         colornode = pnode.find(tag('color'))
         colornode.text = ' '.join(map(str, self.color))
